@@ -406,6 +406,9 @@ def env_names_checked_for_equals(ctx, prog, fn, T, sinks, rule, key, why):
             rv = [v for (b2, si2, v, r2) in result_variants(fn, M.Explore(fn, start=tgt))]
             if rv and all(v in ("Err", "from_residual") for v in rv) and not (fn.reachable(tgt) & set(sinks)):
                 gates.append(bb)
+    # the test is made for every entry: no way round the loop avoids it (constant conditions evaluated)
+    E_ = M.Explore(fn)
+    gates = [g for g in gates if g in E_.blocks and not any(min(l) in c for l in loops_ if g in l for c in M.sccs(fn, blocks=E_.blocks, edges=E_.edges, removed={g}))]
     ok = bool(gates) and bool(sinks)
     if ok:
         lp = [l for l in loops_ if any(g in l for g in gates)]
